@@ -266,6 +266,12 @@ fn actix_request(spec: &ReqSpec) -> actix_web::HttpRequest {
     if let Some(cl) = &spec.content_length {
         r = r.insert_header(("content-length", cl.as_str()));
     }
+    if spec.extras & 1 != 0 {
+        r = r.insert_header(("accept", "application/json, text/plain;q=0.5"));
+    }
+    if spec.extras & 2 != 0 {
+        r = r.param("uid", "movies");
+    }
     let mut cfg = actix_web::web::JsonConfig::default();
     let mut any = false;
     if let Some(l) = spec.limit {
@@ -304,7 +310,7 @@ where
     use actix_web::FromRequest;
     let req = actix_request(spec);
     let boxed: actix_http::BoxedPayloadStream = Box::pin(SimStream::new(h));
-    let mut payload = actix_web::dev::Payload::Stream { payload: boxed };
+    let mut payload = if spec.extras & 4 != 0 { actix_web::dev::Payload::None } else { actix_web::dev::Payload::Stream { payload: boxed } };
     let fut = AwebJson::<T, E>::from_request(&req, &mut payload);
     Box::pin(async move {
         let _keep = req;
@@ -329,7 +335,7 @@ where
     use actix_web::FromRequest;
     let req = actix_request(spec);
     let boxed: actix_http::BoxedPayloadStream = Box::pin(SimStream::new(h));
-    let mut payload = actix_web::dev::Payload::Stream { payload: boxed };
+    let mut payload = if spec.extras & 4 != 0 { actix_web::dev::Payload::None } else { actix_web::dev::Payload::Stream { payload: boxed } };
     let fut = actix_web::web::Json::<serde_json::Value>::from_request(&req, &mut payload);
     Box::pin(async move {
         let _keep = req;
